@@ -212,7 +212,8 @@ static int uriCompose(const char *scheme, const char *user, const char *pass, co
 	}
 
 	if (host != NULL) {
-		count += KSI_snprintf(buf + count, len - count, "%s", host);
+		/* The parser hands out an IPv6 literal without the brackets. */
+		count += KSI_snprintf(buf + count, len - count, (strchr(host, ':') != NULL && host[0] != '[') ? "[%s]" : "%s", host);
 	}
 
 	if (port != 0) {
